@@ -424,8 +424,7 @@ class World:
         s_local = LocalEntityCfg(UnsignedByteField(c.src_id, c.src_idw), ind, sfh)
         s_remote = remote_cfg(c, c.dst_id, c.dst_idw)
         self.seq = SeqCountProvider(c.seqw * 8)
-        for _ in range(c.seq_start):
-            self.seq.get_and_increment()
+        self.seq.count = c.seq_start      # what seq_start calls of get_and_increment() leave behind
         s_remotes = [s_remote]
         if c.alt_remote:
             import dataclasses
